@@ -100,6 +100,26 @@ def run(case):
     want = ['U-outer:req:in', 'app:req:in', 'sub:req:in', 'route:req:in', 'endpoint', 'route:req:out', 'sub:req:out', 'app:req:out', 'U-outer:req:out']
     if got != want:
         problems.append('three levels: %s, expected %s' % (got, want))
+    # a unique type and its subclass are two different types: both run
+    from clastic.middleware import Middleware
+    base = mk('base', log, 'Timing', phases=('request',))
+    sub_cls = type('AuditedTiming', (type(base),), {})
+    sub = sub_cls()
+    sub.tag = 'sub'
+    for outer_mw, inner_mw, names in ((sub, base, ['sub', 'base']), (base, sub, ['base', 'sub'])):
+        a1 = Application([Route('/x', ep_base, middlewares=[inner_mw])], middlewares=[outer_mw])
+        got = hit('/x', client=Client(a1, Response))
+        want = ['%s:req:in' % names[0], '%s:req:in' % names[1], 'endpoint', '%s:req:out' % names[1], '%s:req:out' % names[0]]
+        if got != want:
+            problems.append('a type and its subclass at two levels: %s, expected %s' % (got, want))
+    # ONE non-unique instance listed at application and route level runs at both positions
+    shared = mk('shared', log, 'NU2', unique=False, phases=('request',))
+    other = mk('other', log, 'OT', phases=('request',))
+    a2 = Application([Route('/x', ep_base, middlewares=[shared])], middlewares=[shared, other])
+    got = hit('/x', client=Client(a2, Response))
+    want = ['shared:req:in', 'other:req:in', 'shared:req:in', 'endpoint', 'shared:req:out', 'other:req:out', 'shared:req:out']
+    if got != want:
+        problems.append('one non-unique instance at two levels: %s, expected %s' % (got, want))
     return {'fails': bool(problems), 'why': '; '.join(problems[:4]), 'count': len(problems)}
 
 
